@@ -259,6 +259,26 @@ func (w *World) rulesEffects(out *[]Obligation) {
 				}
 			}
 		}
+		// writes through aliases of package-level tables (aliasw.go): a local bound to
+		// the table, a reslice handed to append, copy, a callee that stores through
+		// its parameter
+		{
+			sc := p.P.Types.Scope()
+			for _, name := range sc.Names() {
+				gv, ok := sc.Lookup(name).(*types.Var)
+				if !ok {
+					continue
+				}
+				_, isArr := gv.Type().Underlying().(*types.Array)
+				if !isRefLike(gv.Type()) && !isArr {
+					continue
+				}
+				if w, why := p.refMayBeWritten(gv); w {
+					globalStores++
+					add(false, "R14.globals", "alias["+name+"]", gv.Pos(), "package-level "+name+" may be written through an alias: "+why+" — results depend on call history and concurrent calls race")
+				}
+			}
+		}
 		if globalStores == 0 {
 			add(true, "R14.globals", "census", token.NoPos, fmt.Sprintf("%d functions, %d SSA instructions: no store to, map update of, or escaping address of a package-level variable outside the initialisers", len(fns), nInstr))
 		}
